@@ -182,11 +182,9 @@ func (e *Engine) intrinsic(st *State, fr *Frame, fn *ssa.Function, args []Value,
 			e.reachSat[label] = true
 			st.reached[label] = true
 			if len(e.pathModels) < 64 {
-				var reached []string
-				for k := range st.reached {
-					reached = append(reached, k)
-				}
-				e.pathModels = append(e.pathModels, PathModel{Model: e.completeModel(st, m), Observed: e.observedUnder(st, m), Reached: reached})
+				// only this label is known to be reached under this model (earlier labels may belong to
+				// branches that were merged into this state)
+				e.pathModels = append(e.pathModels, PathModel{Model: e.completeModel(st, m), Observed: e.observedUnder(st, m), Reached: []string{label}})
 			}
 		} else if v == Unsat {
 			return nil, true
